@@ -94,6 +94,13 @@ CHECKS.update({
 NOT_YET = {
 }
 
+def hook_commits():
+    """Every commit in /repo whose subject starts with `verif hook` (oldest first)."""
+    import subprocess
+    out = subprocess.run(["git", "-C", "/repo", "log", "--reverse", "--format=%h %s"], capture_output=True, text=True).stdout
+    return [l.split()[0] for l in out.splitlines() if " verif hook " in " " + l.split(" ", 1)[1] + " " or l.split(" ", 1)[1].startswith("verif hook")]
+
+
 def main():
     props = [json.loads(l) for l in open(os.path.join(VERIF, "properties.jsonl"))]
     checks = []
@@ -121,7 +128,7 @@ def main():
             "guard": "cfg(ts_rs_verif)",
             "enable": "RUSTFLAGS=\"--cfg ts_rs_verif\" (set by ./check for every cargo invocation; E1 additionally sets TS_RS_VERIF_MACROS_HARNESS)",
             "baseline_off_cmd": "cd /repo && cargo test --workspace --no-fail-fast --offline",
-            "source_commits": ["7325ef9", "76b00c5", open(os.path.join(VERIF, "lib", "h2.txt")).read().strip(), "2584eaf"],
+            "source_commits": hook_commits(),
             "add_only": True,
         },
         "engines": [
@@ -136,7 +143,7 @@ def main():
         ],
         "checks": checks,
         "not_applicable": na,
-        "notes": "See DESIGN.md. known_findings.json lists genuine defects (open = reported as KNOWN-FINDING, fixed = history).",
+        "notes": "See DESIGN.md. known_findings.json lists genuine defects (open = reported as KNOWN-FINDING, fixed = history). Hooks are add-only with respect to the unguarded code: every guarded line only adds instrumentation; two of the six hook commits (714ab4a, 722f434) remove and re-add the scheduling points of export_and_merge around the `fix:` commit that rewrote that function.",
     }
     with open(os.path.join(VERIF, "MANIFEST.json"), "w") as f:
         json.dump(m, f, indent=1)
